@@ -22,6 +22,7 @@ inductive Step
   | setSummary (f : PropSet → PropSet)        -- any `summary_info_mut()` setter or clearer
   | setCodepage (cp : Nat)                    -- `set_database_codepage`
   | save
+  | reopen                                    -- close the package, open the container again
 
 /-- the state after the call (whatever it returned) -/
 def Step.run (s : Pkg) : Step → Pkg
@@ -34,6 +35,7 @@ def Step.run (s : Pkg) : Step → Pkg
   | .setSummary f => { s with finisher := true, summaryModified := true, summary := f s.summary }
   | .setCodepage cp => { s with finisher := true, pool := { s.pool with codepage := cp, modified := true } }
   | .save => (flush s).1
+  | .reopen => match open_ (some s.ptype) s.cont with | .ok s2 => s2 | _ => s
 
 /-- `drop_table` refuses the call before doing anything -/
 def dropRefused (s : Pkg) (n : List Char) : Prop :=
@@ -55,7 +57,9 @@ theorem dropRefused_noop (s : Pkg) (n : List Char) (h : dropRefused s n) : (drop
 /-- the calls the theorem covers: stream writes and removals, signature removal, summary setters and
 the database code page (always); statements on user tables (accepted or refused); `create_table`
 and `drop_table` calls that are refused by the up-front checks or succeed; saves that succeed, of states that
-can be written (`Savable`: text the code page can encode, a well-formed summary) -/
+can be written (`Savable`: text the code page can encode, a well-formed summary); closing and
+reopening when nothing is pending (`Saved`: the metadata streams decode to the in-memory state, as
+after a successful save) -/
 def Step.Admissible (s : Pkg) : Step → Prop
   | .dml op => MsiProofs.EndToEnd.UserOp op
   | .create n c => createError s n c ≠ none ∨ (createTable s n c).2 = .ok ()
@@ -66,6 +70,7 @@ def Step.Admissible (s : Pkg) : Step → Prop
   | .setSummary _ => True
   | .setCodepage _ => True
   | .save => (flush s).2 = .ok () ∧ ∃ E, Savable s E
+  | .reopen => Saved s
 
 def Admissible : Pkg → List Step → Prop
   | _, [] => True
@@ -135,6 +140,31 @@ theorem step_full (slack : Nat → Nat) (s : Pkg) (tabs : List Table) (hF : Full
       obtain ⟨hc1, -, hl⟩ := finish_core slack _ _ tabs hc0 E hsav0 hrun
       refine ⟨tabs, ⟨hc1, ?_⟩, finish_noOrphans _ (noOrphans_setFinisher s false hN)⟩
       rw [hl]; exact hF.hasVal
+
+  | reopen =>
+    have hA := full_allInv slack s tabs hF
+    obtain ⟨s2, ho, hc, hs, hp, ht⟩ := reopen_same_tables s tabs ha hA.cat
+    show ∃ tabs', Full slack (match open_ (some s.ptype) s.cont with | .ok s2 => s2 | _ => s) tabs' ∧
+      NoOrphans (match open_ (some s.ptype) s.cont with | .ok s2 => s2 | _ => s)
+    rw [ho]
+    simp only
+    have hsaved2 : Saved s2 := ⟨by rw [hc, hs]; exact ha.summary, by rw [hc, hp]; exact ha.pool⟩
+    exact ⟨tabs, MsiProofs.OtherCalls.full_transfer slack s s2 tabs hF hN ht (by rw [hp]) (by rw [hp])
+      (fun _ => by rw [hc]) (MsiProofs.Synced.synced_of_saved s2 hsaved2)⟩
+
+/-- after an admissible save of a state with pending changes, the package may be closed and
+reopened (`Saved`), i.e. `save` then `reopen` is admissible -/
+theorem saved_after_save (slack : Nat → Nat) (s : Pkg) (tabs : List Table) (hF : Full slack s tabs)
+    (ha : Step.save.Admissible s) (hfin : s.finisher = true) : Step.reopen.Admissible (Step.save.run s) := by
+  obtain ⟨hok, E, hsav⟩ := ha
+  show Saved (flush s).1
+  unfold flush at hok ⊢
+  simp only [hfin, if_true] at hok ⊢
+  have hc0 := core_setFinisher slack s tabs false hF.core
+  have hsav0 : Savable { s with finisher := false } E := ⟨hsav.summary, hsav.fmtid, hsav.pool⟩
+  have hrun : finish { s with finisher := false } = ((finish { s with finisher := false }).1, .ok ()) := by
+    rw [← hok]
+  exact (finish_core slack _ _ tabs hc0 E hsav0 hrun).2.1
 
 def runAll (s : Pkg) (steps : List Step) : Pkg := steps.foldl Step.run s
 
